@@ -84,3 +84,22 @@ theorem C12_truncation_repair (P : Params) (rs : List Bytes) (n : Nat) :
     readAll P (repair P ((writeAll P 0 rs).1.take n)) = ((readAll P ((writeAll P 0 rs).1.take n)).1, .eof) ∧
       (readAll P ((writeAll P 0 rs).1.take n)).1 <+: rs :=
   ⟨C12_repair_reads_back P _, wal_truncation_prefix P rs n⟩
+
+
+/-- **records before the damage.** If the file holds the encoding of `rs` followed by anything at all — the
+rest of the log with a byte altered, a record cut off, garbage — reading returns `rs` first, complete and in
+order (what follows them is decided by the checksums: end-of-log, a corruption report, or the intact rest).
+With `writeAll_append` this is "every record lying wholly before the damage is returned". -/
+theorem C12_records_before_damage (P : Params) (rs : List Bytes) (junk : Bytes) :
+    rs <+: (readAll P ((writeAll P 0 rs).1 ++ junk)).1 := wal_records_before_damage P rs junk
+
+/-- the same for damage inside a log of `rs1 ++ rs2`: the bytes from the end of `rs1`'s encoding on are
+replaced by `junk` -/
+theorem C12_damage_after_prefix (P : Params) (rs1 rs2 : List Bytes) (junk : Bytes) :
+    ((writeAll P 0 (rs1 ++ rs2)).1.take (writeAll P 0 rs1).1.length = (writeAll P 0 rs1).1) ∧
+    rs1 <+: (readAll P ((writeAll P 0 (rs1 ++ rs2)).1.take (writeAll P 0 rs1).1.length ++ junk)).1 := by
+  have hsplit : (writeAll P 0 (rs1 ++ rs2)).1 = (writeAll P 0 rs1).1 ++ (writeAll P (writeAll P 0 rs1).2 rs2).1 := by
+    exact (writeAll_append P rs1 rs2 0).1
+  have htake : (writeAll P 0 (rs1 ++ rs2)).1.take (writeAll P 0 rs1).1.length = (writeAll P 0 rs1).1 := by
+    rw [hsplit]; simp
+  exact ⟨htake, by rw [htake]; exact wal_records_before_damage P rs1 junk⟩
